@@ -268,6 +268,33 @@ def run(tier: str, seed: int) -> int:
                 uh = np.abs(np.asarray(ex.fft(jnp.asarray(u))))[0]
                 if float(np.max(uh[cutoff + 1:], initial=0.0)) > 1e-9 * (1 + float(np.max(uh))) or abs(float(np.mean(u)) - 1.5) > 1e-9:
                     run_.violation({"kind": "cutoff", "gen": "RandomSineWaves1d", "D": 1, "mode": "band/mean"}, {"N": N, "cutoff": cutoff})
+    # ---- directly nested scaling wrappers (the quick model nests one wrapper): sampled form, function form and factor product agree
+    for gname, mk in (("RandomSineWaves1d", lambda: ex.ic.RandomSineWaves1d(1, domain_extent=2.0, cutoff=3)),
+                      ("RandomGaussianBlobs", lambda: ex.ic.RandomGaussianBlobs(2, domain_extent=2.0, num_blobs=2)),
+                      ("RandomDiscontinuities", lambda: ex.ic.RandomDiscontinuities(1, domain_extent=2.0)),
+                      ("RandomTruncatedFourierSeries", lambda: ex.ic.RandomTruncatedFourierSeries(2, cutoff=2))):
+        base = mk()
+        D = base.num_spatial_dims
+        for factors in ((3.0, -2.0), (0.5, 0.5, 4.0)):
+            g = base
+            for f_ in factors:
+                g = ex.ic.ScaledICGenerator(g, f_)
+            key = jax.random.PRNGKey(int(rng.integers(0, 2 ** 31)))
+            N = 12
+            run_.evaluations += 1
+            run_.case(("nested-scale", gname, factors))
+            ref = np.asarray(base(N, key=key)) * float(np.prod(factors))
+            got = np.asarray(g(N, key=key))
+            keyv = {"kind": "nested-scale", "gen": gname, "depth": len(factors)}
+            if got.shape != ref.shape or not np.allclose(got, ref, rtol=0, atol=1e-12 * (1 + float(np.max(np.abs(ref))))):
+                run_.violation(dict(keyv, mode="sampled form != product of the factors x inner draw"), {"factors": list(factors)})
+            if gname != "RandomTruncatedFourierSeries":
+                try:
+                    vf = np.asarray(g.gen_ic_fun(key=key)(ex.make_grid(D, 2.0, N)))
+                    if vf.shape != ref.shape or not np.allclose(vf, ref, rtol=0, atol=1e-12 * (1 + float(np.max(np.abs(ref))))):
+                        run_.violation(dict(keyv, mode="function form != product of the factors x inner draw"), {"factors": list(factors)})
+                except Exception as e:  # noqa: BLE001
+                    run_.violation(dict(keyv, mode="function form raised"), {"exception": repr(e)[:200]})
     # ---- the deterministic building blocks behind the random generators (function forms with known closed forms)
     for D in (1, 2, 3):
         N, L = 12, 2.0
